@@ -1032,6 +1032,10 @@ def c13(tier, seed):
                     env["MIMALLOC_VISIT_ABANDONED"] = "1"; args += ["--abandon-ok", 1]
                     if "--threads" not in args and prof != "walk": args += ["--threads", 1]      # remote frees parked on the delayed list meet forced abandonment
                 cases.append(_drv_case(prop, "C13-v%d-%s-%s-%d" % (vi, prof, v, s), v, args, env=env, timeout=300, meta={"vector": vi, "profile": prof, "config": envname(vec), "seed": s}))
+    # known finding K3: forced abandonment takes live pages away from first-class heaps (one dedicated case per variant)
+    for vv in ("rel", "dbg"):
+        s3 = case_seed(seed, prop, 990000)
+        cases.append(_drv_case(prop, "C13-target-heap-%s-%d" % (vv, s3), vv, ["--profile", "target-heap", "--seed", s3], env={}, timeout=300, meta={"vector": -1, "profile": "target-heap", "config": "target_segments_per_thread=2 (run time)", "seed": s3}))
     v = Verdict(prop)
     # under a non-default option vector every C01-C05/C12 oracle refutes C13 as well (the statement: "the guarantees above hold unchanged under every supported option setting")
     for c in core.run_cases(cases):
